@@ -193,11 +193,14 @@ func NullScalar(t ScalarType) Scalar {
  * -------------------------------------------------------------------------- */
 
 func NewConstScalar(t ScalarType, value float64) ConstScalar {
-  f, ok := scalarRegistry[t]
-  if !ok {
-    panic(fmt.Sprintf("invalid scalar type `%v'", t))
+  if f, ok := constScalarRegistry[t]; ok {
+    return f(value)
   }
-  return f(value)
+  // every (mutable) scalar is a constant scalar as well
+  if f, ok := scalarRegistry[t]; ok {
+    return f(value)
+  }
+  panic(fmt.Sprintf("invalid scalar type `%v'", t))
 }
 
 func NullConstScalar(t ScalarType) ConstScalar {
